@@ -127,8 +127,13 @@ pub fn drive_readn(ops: &str, trace: &str) {
             Err(p) => (0, 0, vec![], vec![], vec![], p),
         };
         let live1 = (ByteArena::num_live_chunks(), ByteArena::num_live_bytes());
+        // long results are logged as (length, "is byte i equal to i mod 256 for every i") instead of byte by byte
+        let got_len = got.len();
+        let got_ramp = got.iter().enumerate().all(|(i, b)| *b == ((i + 1) % 256) as u8);
+        let got = if got_len > 70000 { vec![] } else { got };
         out.emit(&json!({"run":run.run,"ev":"readn","entry":entry,"script":script,"count":count,"attempts":attempts.get(),
-                         "prep":prep,"calls":rd.calls,"ok":ok,"err":err,"got":got,"out":o,"fed":fed,"panic":pan,
+                         "prep":prep,"calls":rd.calls,"ok":ok,"err":err,"got":got,"got_len":got_len,"got_ramp":got_ramp as u8,
+                         "out":o,"fed":fed,"panic":pan,
                          "leak": (live0 != live1) as u8}));
     }
     out.finish();
